@@ -1,15 +1,22 @@
 #!/bin/sh
 # tools/sweep_all.sh: builds govc if needed, then runs every seeded change and every stored mutant
-# against the check of its property, and the behaviour-preserving corpus against all checks.
+# against the check of its property (three + two shards side by side), and after that, with nothing
+# else running, the behaviour-preserving corpus against all checks.
 # Meant for `vp run -- tools/sweep_all.sh` (works from any snapshot of /verif; /repo is only read).
 cd "$(dirname "$0")/.."
 ./check C09 quick >/dev/null 2>&1 || true
-echo "== seeds"
-python3 tools/seed_sweep.py
-echo "== mutants"
-for d in selftest/mutants/*/; do
-  p=$(basename "$d")
-  for m in "$d"*.diff; do selftest/mutant.sh "$p" "$PWD/$m" 2>&1 | tail -1; done
+echo "== seeds and mutants"
+for i in 0 1 2; do SHARD=$i/3 python3 tools/seed_sweep.py > sweep_seeds_$i.log 2>&1 & done
+ls selftest/mutants/*/*.diff | sort > sweep_mutants.lst
+for i in 0 1; do
+  ( awk -v i=$i 'NR % 2 == i' sweep_mutants.lst | while read m; do
+      p=$(basename "$(dirname "$m")"); selftest/mutant.sh "$p" "$PWD/$m" 2>&1 | tail -1
+    done ) > sweep_mutants_$i.log 2>&1 &
 done
+wait
+cat sweep_seeds_0.log sweep_seeds_1.log sweep_seeds_2.log | sort
+echo "== mutants"
+cat sweep_mutants_0.log sweep_mutants_1.log | sort
 echo "== benign"
 for b in selftest/benign/*.diff; do selftest/benign.sh "$PWD/$b"; done
+echo "== done"
